@@ -370,6 +370,9 @@ func extractLSAInformation(lstype, lsalength uint16, data []byte) (interface{}, 
 			AttachedRouter: routers,
 		}
 	case InterAreaPrefixLSAtype:
+		if lsalength < 28 {
+			return nil, fmt.Errorf("Inter-Area-Prefix LSA length %v too short, %v required", lsalength, 28)
+		}
 		content = InterAreaPrefixLSA{
 			Metric:        binary.BigEndian.Uint32(data[20:24]) & 0x00FFFFFF,
 			PrefixLength:  uint8(data[24]),
